@@ -9,10 +9,10 @@ def J(harness, defines=(), wall=600, markers=(1,), **kw):
 CHECKS = {}
 
 CHECKS['C02'] = {
-    'jobs': {'quick': [J('c02_clock.cpp', ['K=3'], wall=240, markers=(1, 2, 3)), J('c02_clock.cpp', ['K=2', 'TIES'], wall=120, markers=(1, 3))],
+    'jobs': {'quick': [J('c02_clock.cpp', ['K=3'], wall=240, markers=(1, 2, 3)), J('c02_clock.cpp', ['K=3', 'TIES'], wall=200, markers=(1, 3))],
              'thorough': [J('c02_clock.cpp', ['K=4'], wall=1500, markers=(1, 2, 3))]},
     'opts': {'check_nsw': True},
-    'bounds': {'quick': 'programs of K=3 ops over {nop, arm timer at now+d, arm timer at absolute t, post, stop, cancel the newest pending timer}, 3 timers, '
+    'bounds': {'quick': 'programs of K=3 ops over {nop, arm timer at now+d, arm timer at absolute t, post, stop, cancel the newest pending timer, arm a timer without waiting on it, re-arm such a timer with a wait}, 3 timers, '
                         'd and t symbolic 64-bit in [-2^40, 2^40] ns, any split of the ops between outside run() and inside handlers',
                'thorough': 'same with K=4'},
     'outside': ['|offset| > 2^40 ns', 'more than K ops', 'more than one outstanding wait per timer (unsupported by the API)'],
@@ -121,6 +121,7 @@ CHECKS['C14'] = {
 
 CHECKS['C05'] = {
     'jobs': {'quick': [J('c05_tcp.cpp', ['LEN=5', 'LOSS=1', 'DROPS=2', 'DIR=0'], wall=280, markers=(1, 2, 3, 5)),
+                       J('c05_tcp.cpp', ['LEN=5', 'LOSS=1', 'DROPS=2', 'DIR=0', 'STRIDE', 'CHUNK1'], wall=200, markers=(1, 2, 3)),
                        J('c05_tcp.cpp', ['LEN=4', 'LOSS=0', 'DIR=0', 'MOVES'], wall=200, markers=(1, 2, 5)),
                        J('c05_tcp.cpp', ['LEN=4', 'LOSS=0', 'DIR=1'], wall=120, markers=(1, 2, 5)),
                        J('c05_tcp.cpp', ['LEN=4', 'LOSS=1', 'DROPS=1', 'DIR=0', 'REUSE=1', 'FARDROP'], wall=200, markers=(1, 4))],
@@ -131,7 +132,7 @@ CHECKS['C05'] = {
                           J('c05_tcp.cpp', ['LEN=6', 'LOSS=1', 'DROPS=2', 'DIR=0', 'REUSE=1', 'FARDROP'], wall=900, markers=(1, 4))]},
     'bounds': {'quick': 'one connection, 5 symbolic payload bytes, path MTU 3 (2-3 segments), write chunk in {1, MTU, MTU+1, all}, 1- or 2-buffer gather writes, read buffers {1}, {2}, {64}, {2+3} and {LEN+8} (scatter reads, one ending exactly at the data), reader armed at once or only after everything (incl. end-of-file) is queued, '
                         'async_read_some or wait+read_some, writer closes or not; the first 2 payload segments are each passed / dropped / held back (reordered) by a hop on the route (9 fault patterns); '
-                        'lossless with the connector / the accepted socket moved after establishment or the reader moved after its first read; reverse direction lossless; accepted socket object closed with unread data (first segment passed/dropped/held by a hop behind the network queue, so that later segments are already under way when the drop is reported) and reused for a second two-segment connection',
+                        'one-byte writes with segments 0 and 2 faulted (two non-adjacent holes); lossless with the connector / the accepted socket moved after establishment or the reader moved after its first read; reverse direction lossless; accepted socket object closed with unread data (first segment passed/dropped/held by a hop behind the network queue, so that later segments are already under way when the drop is reported) and reused for a second two-segment connection',
                'thorough': '8 bytes with the first 4 segments faulted (81 patterns), reverse direction with faults, reuse with faults'},
     'outside': ['longer streams, more than 4 faulted segments', 'routes without any queue hop between the nodes (handshake would complete inside async_connect; unsupported by the library)',
                 'simultaneous payload in both directions'],
@@ -223,10 +224,10 @@ CHECKS['C16'] = {
     'jobs': {'quick': [J('c16_http.cpp', ['NREQ=2'], wall=280, markers=(1, 2, 3), opts={'max_instr': 20000000})],
              'thorough': [J('c16_http.cpp', ['NREQ=3'], wall=1700, markers=(1, 2, 3), opts={'max_instr': 20000000})]},
     'bounds': {'quick': 'every sequence of 2 requests from {registered handler, unknown path (404), ranged content (206), normalised path with Connection: close, redirect (301), stalled path, malformed}, keep-alive flag on/off, '
-                        'the byte stream cut into up to 3 writes at 6 candidate positions (inside the request line, inside the blank line, at / just after the request boundary, before the last byte), writes back to back or 10 ms apart; '
+                        'the byte stream cut into up to 3 writes at 6 candidate positions (inside the request line, inside the blank line, at / just after the request boundary, before the last byte), writes back to back or 10 ms apart; optionally stop() while the connection is open; '
                         'then a second client, then stop(), a refused connect and a re-bind of the port',
                'thorough': 'sequences of 3 requests'},
-    'outside': ['bodies larger than a few bytes', 'more than 3 writes per stream', 'stop() while a connection is open'],
+    'outside': ['bodies larger than a few bytes', 'more than 3 writes per stream', 'stop() at other moments than before the first connection\'s requests arrive or after it ended'],
     'assumptions': ['printf/formatting is stubbed'],
 }
 
